@@ -11,7 +11,8 @@ GoTypes == {"string", "*int", "[]uint8", "bool", "float64", "[]string", "*[]stri
             "named-int", "*named-string", "named-strings", "*[]uint8", "*time.Time", "*bool", "*string", "**int", "**string"}   \* user-defined types whose underlying type is supported
 JsonTags == {"a", "b", "", "id", "~", "a,omitempty", "-"}   \* "~": json:"" (the key is there, the name is empty); "a,omitempty": the whole tag is the name, option and all; "-": a name like any other for this library
 ApiTags == {"", "attr", "rel", "rel,", "rel,tt", "rel,tt,inv", "rel,a,b,c", "other", "rel,,inv", "attr,omitempty", "related", "relation,tt"}
-IdVariants == {"ok", "noapi", "absent", "int", "jsonother", "nojson", "last", "named"}
+IdVariants == {"ok", "noapi", "absent", "int", "jsonother", "nojson", "last", "named",
+               "tname-attr", "tname-rel", "tname-rel2", "tname-rel4", "named-attr"}
 F(g, j, a) == [gotype |-> g, json |-> j, api |-> a]
 FieldSpecs == { F(g, j, a) : g \in GoTypes, j \in JsonTags, a \in ApiTags }
 
